@@ -135,19 +135,32 @@ def RState.readable (r : RState) (e : CEnt) : Bool :=
     | some cs => cs.contains (.vEnt e.key e.ver)
     | none => false)
 
+def mkFile (p : Path) : List FsOp := [.create p, .extend p]
+def delFile (p : Path) : List FsOp := [.truncate p 0, .unlink p]
+def newLog (p : Path) : List FsOp := mkFile p ++ [.append p .hdr, .zero p]
+
 /-- `openMemTables`: every `.mem` file in ascending fid order. Returns the immutable
     memtables, the operations performed (truncate to the valid end; an empty memtable's file is
     deleted by `DecrRef`) and the largest fid seen. -/
-def openMems (ro : Bool) : List (Nat × Inode) → Except RecErr (List (Nat × List CEnt) × List FsOp)
+def openMems (old ro : Bool) : List (Nat × Inode) → Except RecErr (List (Nat × List CEnt) × List FsOp)
   | [] => .ok ([], [])
   | (fid, f) :: rest =>
-    if f.size = .zero then .error (.zeroLengthLog (.mem fid)) else
+    if f.size = .zero then
+      -- `z.OpenMmapFile` sizes the empty file and answers `NewFile`; `logFile.open` writes a
+      -- header. Before the repair of F22 (`old`) `openMemTables` took that answer for an error;
+      -- now the file is an empty memtable, dropped (and its file deleted) like any other.
+      if old ∨ ro then .error (.zeroLengthLog (.mem fid)) else
+      match openMems old ro rest with
+      | .error e => .error e
+      | .ok (imms, ops) =>
+        .ok (imms, mkFile (.mem fid) ++ [.append (.mem fid) .hdr, .zero (.mem fid)] ++ delFile (.mem fid) ++ ops)
+    else
     let sc := replayLog f.chunks
     let needTrunc := f.size = .alloc ∨ sc.valid ≠ f.chunks.length
     if ro ∧ needTrunc then .error (.truncateNeeded (.mem fid)) else
     let topsT := if needTrunc then [FsOp.truncate (.mem fid) sc.valid] else []
     let topsD := if sc.ents.isEmpty then [FsOp.truncate (.mem fid) 0, FsOp.unlink (.mem fid)] else []
-    match openMems ro rest with
+    match openMems old ro rest with
     | .error e => .error e
     | .ok (imms, ops) =>
       .ok ((if sc.ents.isEmpty then imms else (fid, sc.ents) :: imms), topsT ++ topsD ++ ops)
@@ -169,10 +182,19 @@ def openTables (file : Path → Option Inode) : List (Nat × Nat) → Except Rec
 
 /-- `valueLog.open` (read-write): zero-length files are an error, header-only files other than
     the newest are deleted, the newest is truncated to its valid end, a new file is created. -/
-def openVlogs (ro : Bool) (maxFid : Nat) : List (Nat × Inode) → Except RecErr (List FsOp)
+def openVlogs (old ro : Bool) (maxFid : Nat) : List (Nat × Inode) → Except RecErr (List FsOp)
   | [] => .ok []
   | (fid, f) :: rest =>
-    if f.size = .zero then .error (.zeroLengthLog (.vlog fid)) else
+    if f.size = .zero then
+      -- as for `.mem` files: an error before the repair of F22, now an empty value-log file
+      -- (sized, header written; the newest one is then cut back to its header)
+      if old ∨ ro then .error (.zeroLengthLog (.vlog fid)) else
+      match openVlogs old ro maxFid rest with
+      | .ok ops =>
+        .ok (mkFile (.vlog fid) ++ [.append (.vlog fid) .hdr, .zero (.vlog fid)] ++
+             (if fid = maxFid then [FsOp.truncate (.vlog fid) 1] else []) ++ ops)
+      | .error e => .error e
+    else
     let del := !ro && f.size = .tight && f.chunks.length ≤ 1 && fid ≠ maxFid
     let ops1 := if del then [FsOp.truncate (.vlog fid) 0, FsOp.unlink (.vlog fid)] else []
     let ops2 :=
@@ -180,13 +202,10 @@ def openVlogs (ro : Bool) (maxFid : Nat) : List (Nat × Inode) → Except RecErr
         let n := f.chunks.length   -- value-log records are written whole before the WAL refers to them
         if f.size = .alloc then [FsOp.truncate (.vlog fid) (max n 1)] else []
       else []
-    match openVlogs ro maxFid rest with
+    match openVlogs old ro maxFid rest with
     | .ok ops => .ok (ops1 ++ ops2 ++ ops)
     | .error e => .error e
 
-def mkFile (p : Path) : List FsOp := [.create p, .extend p]
-def delFile (p : Path) : List FsOp := [.truncate p 0, .unlink p]
-def newLog (p : Path) : List FsOp := mkFile p ++ [.append p .hdr, .zero p]
 
 /-- `helpRewrite`: the MANIFEST is written to MANIFEST-REWRITE, synced, renamed, and the
     directory is synced. -/
@@ -197,8 +216,9 @@ def manifestRewriteOps (sets : List Chunk) : List FsOp :=
 def lastFid {α : Type} (l : List (Nat × α)) : Nat := (l.map (·.1)).foldl max 0
 
 /-- `badger.Open` as a function of "what is in the file called p" (`file`) and a bound `B`
-    above every number used in a file name. `ro` = `Options.ReadOnly`. -/
-def recoverF (ro : Bool) (file : Path → Option Inode) (B : Nat) : Except RecErr RState :=
+    above every number used in a file name. `ro` = `Options.ReadOnly`; `old` = the behaviour
+    before the repair of F22. -/
+def recoverG (old ro : Bool) (file : Path → Option Inode) (B : Nat) : Except RecErr RState :=
   -- 1. MANIFEST
   let mres : Except RecErr (List (Nat × Nat) × List FsOp) :=
     match file .manifest with
@@ -217,7 +237,7 @@ def recoverF (ro : Bool) (file : Path → Option Inode) (B : Nat) : Except RecEr
           .rename .keyRegistryRewrite .keyRegistry, .syncDir]
   -- 3. memtables
   let mems := listFiles file .mem B
-  match openMems ro mems with
+  match openMems old ro mems with
   | .error e => .error e
   | .ok (imms, memOps) =>
   let nextMem := lastFid mems + 1
@@ -233,7 +253,7 @@ def recoverF (ro : Bool) (file : Path → Option Inode) (B : Nat) : Except RecEr
   -- 6. value log
   let vls := listFiles file .vlog B
   let vmax := lastFid vls
-  match openVlogs ro vmax vls with
+  match openVlogs old ro vmax vls with
   | .error e => .error e
   | .ok vops =>
   let newV := if ro then [] else newLog (.vlog (vmax + 1)) ++ [.syncDir]
@@ -243,7 +263,13 @@ def recoverF (ro : Bool) (file : Path → Option Inode) (B : Nat) : Except RecEr
         vlogs := vls.map (fun x => (x.1, x.2.chunks)),
         ops := mops ++ kops ++ memOps ++ newMemOps ++ lvlOps ++ vops ++ newV }
 
+/-- `badger.Open` as it is -/
+def recoverF (ro : Bool) (file : Path → Option Inode) (B : Nat) : Except RecErr RState := recoverG false ro file B
+
 /-- `badger.Open` of a directory image -/
 def recover (ro : Bool) (img : Image) : Except RecErr RState := recoverF ro img.file img.bound
+
+/-- `badger.Open` before the repair of finding F22 (zero-length log files were an error) -/
+def recoverOld (ro : Bool) (img : Image) : Except RecErr RState := recoverG true ro img.file img.bound
 
 end Badger
